@@ -293,11 +293,17 @@ def correspond(ctx, scale):
                              (lambda: GroupedResidualVQ(dim=4, groups=2, num_quantizers=3, codebook_size=5, quantize_dropout=True), 4, True),
                              (lambda: ResidualFSQ(levels=[3, 3], num_quantizers=4, dim=2, quantize_dropout=True), 2, False),
                              (lambda: ResidualLFQ(dim=3, codebook_size=8, num_quantizers=4, quantize_dropout=True), 3, False),
-                             (lambda: ResidualSimVQ(dim=3, num_quantizers=4, codebook_size=5, quantize_dropout=True), 3, False)):
+                             (lambda: ResidualSimVQ(dim=3, num_quantizers=4, codebook_size=5, quantize_dropout=True), 3, False),
+                             # quantize_dropout_multiple_of that does NOT divide the number of layers (the rounded-up depth may pass the last layer)
+                             (lambda: ResidualVQ(dim=3, num_quantizers=4, codebook_size=5, quantize_dropout=True, quantize_dropout_multiple_of=3), 3, False),
+                             (lambda: ResidualFSQ(levels=[3, 3], num_quantizers=4, dim=2, quantize_dropout=True, quantize_dropout_multiple_of=3), 2, False),
+                             (lambda: ResidualFSQ(levels=[3, 3], num_quantizers=5, dim=2, quantize_dropout=True, quantize_dropout_multiple_of=2), 2, False),
+                             (lambda: ResidualLFQ(dim=3, codebook_size=8, num_quantizers=6, quantize_dropout=True, quantize_dropout_multiple_of=4), 3, False),
+                             (lambda: ResidualSimVQ(dim=3, num_quantizers=5, codebook_size=5, quantize_dropout=True, quantize_dropout_multiple_of=3), 3, False)):
         q = mk()
         q.train()
         image = getattr(q, 'accept_image_fmap', False) and not grouped
-        for seed in range(6):
+        for seed in range(12):
             x = torch.randn(2, dim, 2, 3) if image else torch.randn(2, 3, dim)
             ev += 1
             dist['dropout'] = dist.get('dropout', 0) + 1
@@ -332,6 +338,11 @@ def correspond(ctx, scale):
                         idx = keep
                 except Exception as ex:
                     failures.append({'key': f'{type(q).__name__}:dropout:all-codes-exception', 'what': f'{type(q).__name__} (seed {seed}) return_all_codes / decode: {ex!r}', 'case': dict(cls=type(q).__name__, seed=seed)})
+            if not grouped:
+                want_shape = (2, 2, 3, q.num_quantizers) if image else (2, 3, q.num_quantizers)
+                if tuple(idx.shape) != want_shape:
+                    failures.append({'key': f'{type(q).__name__}:dropout:index-shape', 'what': f'{type(q).__name__}(num_quantizers={q.num_quantizers}, multiple_of={getattr(q, "quantize_dropout_multiple_of", 1)}) with quantize_dropout '
+                                     f'(seed {seed}): indices have shape {tuple(idx.shape)}, documented {want_shape}', 'case': dict(cls=type(q).__name__, seed=seed)})
             if idx.dtype not in (torch.int32, torch.int64):
                 failures.append({'key': f'{type(q).__name__}:dropout:index-dtype', 'what': f'{type(q).__name__} with quantize_dropout (seed {seed}): indices are {idx.dtype}, not integer-typed', 'case': dict(cls=type(q).__name__, seed=seed)})
             if tuple(ret[0].shape) != tuple(x.shape):
